@@ -172,7 +172,7 @@ CHECKS = {
          "providers, priority orders, max_providers in {1,2}, max_errors in {1,2,4}: returned value, results and errors bookkeeping must match. Every "
          "query method (sendrawtransaction, getrawtransaction, getbalance, getutxos, gettransaction, mempool, isspent, estimatefee) is run on all "
          "{ok, False, exception}^2 patterns cold and warm: the answer must be the first responding provider's, a failure, or - warm - exactly what "
-         "was stored. Found and fixed: F36 (getbalance invented 0)."),
+         "was stored. Listed finding: F36 (getbalance reports 0 when no provider answered; the repair breaks an unedited offline test)."),
    design_ref='DESIGN.md §5 C20',
    note=COMMON_NOTE + "Providers are in-process fakes (timeouts and partial HTTP answers are represented by the outcome classes); the SQL cache is exercised, not modelled; estimatefee's clamping/default is a documented normalisation; blockcount's provider-consensus vote is outside the model."),
  'C17': dict(
@@ -202,6 +202,19 @@ CHECKS = {
    design_ref='DESIGN.md §5 C16',
    note=COMMON_NOTE + "The object walk enumerates what Python exposes (__dict__ of bitcoinlib objects, containers, pickle bytes); it is not a proof about the interpreter. "
         "info(), wif(), as_dict(include_private=True) of a PRIVATE object are explicit private exports, not public views."),
+ 'C15': dict(
+   technique='Lean 4 theorems (BIP38 payload layout round trip over any invertible block cipher; accepted keys hash to the committed address hash; generator calls consume distinct entropy draws) + reference AES-256 / scrypt correspondence with the code, BIP38 vectors, generation histories',
+   text=("Proved in Lean for the non-EC-multiplied layout over an abstract cipher with dec(enc b) = b and an abstract scrypt: for every 32-byte "
+         "secret, both compression flags, every passphrase (derive function) decrypt(encrypt(k)) = (k, flag); for ANY string and ANY passphrase whatever "
+         "decrypt returns hashes to the 4-byte address hash committed in the string (so a wrong passphrase fails rather than returning an unrelated "
+         "key, up to the 32-bit commitment BIP38 specifies); n generator calls that each consume a draw use n distinct draws, whereas the "
+         "default-argument generator of the pinned tree repeats draw 0 (F11 witness). The model with a Lean AES-256 and hashlib.scrypt is compared "
+         "with Key.encrypt / bip38_decrypt / Key(import) on structured keys (edge scalars, both flags, several networks, unicode NFC-sensitive "
+         "passphrases), wrong passphrases, corrupted strings incl. the checksum tail, histories that change the key's address encoding before "
+         "encrypting, the BIP38 vectors incl. EC-multiplied ones (decrypt side) and successive bip38_create_new_encrypted_wif calls (distinct "
+         "keys). Found and fixed: F11, F20, F07, F37."),
+   design_ref='DESIGN.md §5 C15',
+   note=COMMON_NOTE + "AES-256 and scrypt are reference code / hashlib, not proved; the EC-multiplied mode is covered by correspondence (vectors, generate-then-decrypt), not by theorems."),
 }
 
 NOT_YET = {}
